@@ -513,7 +513,7 @@ def shrink(case):
 
 
 MANIFEST = dict(
-    text=('Proof (Coq, 8 theorems, all closed under the global context): the whole request-body pipeline (BodyMixin._body, '
+    text=('Proof (Coq, 11 theorems, all closed under the global context): the whole request-body pipeline (BodyMixin._body, '
           '_get_body_string, json, POST/forms/files, BaseRequest._raise with DefaultConfig.errors_map, the streaming multipart '
           'parser, FieldStorage) is one total function coq/model/BodyPipeline.v:process in which every raising Python '
           'operation is a ServerFault constructor unless the code routes it through _raise. C12_no_server_fault: for ALL json '
@@ -522,13 +522,16 @@ MANIFEST = dict(
           'terminate (C12_terminates); the streaming parser\'s section list alternates and has non-negative offsets for ANY '
           'input (C12_markup_shape); every delivered field is the complete content of a data section the parser reported '
           '(C12_delivered_fields_complete), which on every prefix of a well-formed body ends at a delimiter '
-          '(C12_truncated_never_delivered, via C06). The model is tied to /repo on every run by a differential correspondence '
+          '(C12_truncated_never_delivered, via C06) and, on ARBITRARY input, at the first delimiter after its start '
+          '(C12_delivered_fields_complete_any_input, via C06_data_sections_closed_any_input); the pipeline\'s readers are the '
+          'C04/C05 models for all inputs (C12_readers_are_C04_C05); guards: CONTENT_TYPE latin-1 and CONTENT_LENGTH accepted '
+          'by int() (C12_content_length_not_int_refuted: otherwise 500, a recorded finding). The model is tied to /repo on every run by a differential correspondence '
           'through Ombott.__call__ on a malformed-body stream and an independent oracle (no 5xx, no traceback on wsgi.errors, '
           'no hang, delivered fields are delimiter-terminated parts).'),
     note=('Trusted: Coq kernel + vm_compute; extraction; the Python harness; json.loads (raises only ValueError/RecursionError); '
-          'parse_qsl total (C18); regex scanners (texts pinned); stream model. Not proved: that data sections of the streaming '
-          'parser end at a delimiter for bodies outside wf_prefix (oracle + correspondence only). CONTENT_LENGTH is an integer: '
-          'a non-numeric Content-Length header gives 500 (int() ValueError) and is outside the property.'),
+          'parse_qsl total (C18); the three regex scanners (texts pinned in C12_pins: an edited regex, e.g. one that backtracks '
+          'exponentially, breaks an obligation; hangs are also searched by a generator family with a per-request alarm); stream '
+          'model; int() as lib/PyIntParse.v (latin-1 exact).'),
     technique='Coq proof over an executable model of the pipeline + model/implementation correspondence on malformed inputs',
     design_ref='DESIGN.md section 4, C12',
 )
